@@ -128,7 +128,7 @@ def php_stmt(s, ind=0):
     if k == "try":
         out = p + "try {\n%s%s}" % (php_block(s[1], ind + 1), p)
         for ty, x, b in s[2]:
-            out += " catch (%s%s) {\n%s%s}" % (ty, "" if x is None else " $" + x, php_block(b, ind + 1), p)
+            out += " catch (%s%s) {\n%s%s}" % (ty.replace("|", " | "), "" if x is None else " $" + x, php_block(b, ind + 1), p)
         if s[3] is not None:
             out += " finally {\n%s%s}" % (php_block(s[3], ind + 1), p)
         return out + "\n"
@@ -254,8 +254,10 @@ def coq_stmt(s):
         return "(SStatic %s %s)" % (coq_string(s[1]), coq_value(s[2]))
     if k == "try":
         cs = "CTNil"
-        for ty, x, b in reversed(s[2]):
-            cs = "(CTCons %s %s %s %s)" % (coq_string(ty), "None" if x is None else "(Some %s)" % coq_string(x), coq_block(b), cs)
+        for tys, x, b in reversed(s[2]):
+            # catch (A | B $e) { S }  is  catch (A $e) { S } catch (B $e) { S }
+            for ty in reversed(tys.split("|")):
+                cs = "(CTCons %s %s %s %s)" % (coq_string(ty), "None" if x is None else "(Some %s)" % coq_string(x), coq_block(b), cs)
         return "(STry %s %s %s)" % (coq_block(s[1]), cs, coq_block(s[3] or []))
     if k == "throw":
         return "(SThrow %s)" % coq_expr(s[1])
@@ -1161,8 +1163,8 @@ class Probe:
                 try:
                     self.block(s[1], fr)
                 except _Thr as t:
-                    for ty, x, b in s[2]:
-                        if self.catches(ty, t.v):
+                    for tys, x, b in s[2]:
+                        if any(self.catches(ty, t.v) for ty in tys.split("|")):
                             if x is not None:
                                 self.wr(fr, x, t.v)
                             self.block(b, fr)
